@@ -270,26 +270,18 @@ Fixpoint put_indexed_map (m : amap) (idx : list value) (v : value) : pres :=
           | Some _ =>
               (* existing non-collection: overwritten by an empty map when the next index is a string,
                  by an array when it is an int *)
-              (* the pinned tree overwrites the stored Mlrval IN PLACE (mv is assigned a fresh empty map through its pointer), which is visible through
-                 every alias of that scalar (locals bind scalars by reference): outside the modelled fragment *)
+              (* existing non-collection: overwritten by an empty map when the next index is a string,
+                 by an array when it is an int *)
               match k2 with
-              | VStr (_ :: _) => PUnsup
+              | VStr (_ :: _) => match put_indexed_map [] rest v with
+                                 | POk sub => POk (mput ks (VMap sub) m)
+                                 | e => e
+                                 end
               | VInt _ => PUnsup
               | _ => PErr
               end
           end
       end
-  end.
-
-(* Mlrval.PutIndexed on a value that may or may not be a map (a local variable's current value) *)
-Definition put_indexed_value (base : value) (idx : list value) (v : value) : pres :=
-  match base with
-  | VMap m => put_indexed_map m idx v
-  | _ => match idx with
-         | VStr (_ :: _) :: _ => PUnsup      (* in-place overwrite of a scalar by a map: see put_indexed_map *)
-         | VInt _ :: _ => PUnsup
-         | _ => PErr
-         end
   end.
 
 (* removeIndexedOnMap: errors are ignored by every caller ("unset of a non-existent path is a no-op") *)
@@ -305,6 +297,29 @@ Fixpoint remove_indexed_map (m : amap) (idx : list value) : amap :=
                    | _ => m
                    end
       end
+  end.
+
+(* ---- unary built-in functions of the typing class (pkg/bifs/types.go) and length (pkg/bifs/collections.go) *)
+Inductive fun1 := FTypeof | FIsAbsent | FIsPresent | FIsError | FIsMap | FIsString | FIsInt | FIsBool | FIsEmpty | FLength.
+
+Definition type_name (v : value) : bytes :=
+  match v with
+  | VAbsent => B "absent" | VError => B "error" | VInt _ => B "int" | VStr [] => B "empty" | VStr _ => B "string"
+  | VBool _ => B "bool" | VMap _ => B "map"
+  end.
+
+Definition apply_fun1 (f : fun1) (v : value) : value :=
+  match f with
+  | FTypeof => VStr (type_name v)
+  | FIsAbsent => VBool (match v with VAbsent => true | _ => false end)
+  | FIsPresent => VBool (match v with VAbsent => false | _ => true end)
+  | FIsError => VBool (match v with VError => true | _ => false end)
+  | FIsMap => VBool (is_map v)
+  | FIsString => VBool (match v with VStr _ => true | _ => false end)
+  | FIsInt => VBool (match v with VInt _ => true | _ => false end)
+  | FIsBool => VBool (match v with VBool _ => true | _ => false end)
+  | FIsEmpty => VBool (is_void v)
+  | FLength => VInt (match v with VError => 0 | VAbsent => 0 | VMap m => Z.of_nat (List.length m) | _ => 1 end)
   end.
 
 (* ---- value equality (executable), for the harness *)
